@@ -241,6 +241,22 @@ type c19appSt struct {
 
 func (e c19appSt) Status() int { return e.st }
 
+// application errors that also expose a reason the way github.com/pkg/errors-style wrappers do (a Cause() method): the
+// answer is decided by what the error IS (its own Code()), not by what it was caused by
+type c19appCause struct {
+	c19app
+	reason error
+}
+
+func (e c19appCause) Cause() error { return e.reason }
+
+type c19appStCause struct {
+	c19appSt
+	reason error
+}
+
+func (e c19appStCause) Cause() error { return e.reason }
+
 type c19plainSt struct {
 	text string
 	st   int
@@ -495,8 +511,15 @@ func c19(c *h.Ctx) {
 			e = oh.SystemError(code)
 		case "app":
 			e = c19app{code, text}
+			reasons := []error{errors.New("disk full"), oh.SystemError(100), c19app{7, "inner"}, io.EOF}
+			if (code+entry)%3 == 0 {
+				e = c19appCause{c19app{code, text}, reasons[(code+entry)/3%4&3]}
+			}
 			if st != 0 {
 				e = c19appSt{c19app{code, text}, st}
+				if (code+entry)%3 == 0 {
+					e = c19appStCause{c19appSt{c19app{code, text}, st}, reasons[(code+entry)/3%4&3]}
+				}
 				stS = fmt.Sprint(st)
 			}
 		case "plain":
